@@ -247,11 +247,14 @@ PROPS["C16"] = dict(
               "SqlVerif.Props.C16.exactly_once", "SqlVerif.Props.C16.break_stops", "SqlVerif.Props.C16.no_break_complete",
               "SqlVerif.Props.C16.visit_eq_visitmut", "SqlVerif.Props.C16.identity_mut",
               "SqlVerif.Props.C16.node_kinds_hooked", "SqlVerif.Props.C16.relation_positions_hooked",
-              "SqlVerif.Props.C16.relation_positions_consistent", "SqlVerif.Props.C16.hooks_known"],
+              "SqlVerif.Props.C16.relation_positions_consistent", "SqlVerif.Props.C16.hooks_known",
+              "SqlVerif.Props.C16.hooked_vec_trace", "SqlVerif.Props.C16.each_positions_consistent",
+              "SqlVerif.Props.C16.relation_hooks_on_object_names", "SqlVerif.Props.C16.relation_spec_typed",
+              "SqlVerif.Props.C16.delete_targets_hooked_each"],
     corr=["visit"],
     unique_output={"visit": True},
     oracle=["C16"],
-    level_text="Proved in Lean for every tree and every visitor (a visitor = the set of callback indices at which it returns Break): the traversal that derive(Visit, VisitMut) generates (type-level pre hook, fields in declaration order each wrapped in its field-level pre/post hook, type-level post hook; Option/Vec/Box transparent; ? on ControlFlow) delivers a well-nested callback sequence in which every post closes the pre of the same node; the pre callbacks are exactly the hooked nodes and hooked fields of the tree in pre-order, each exactly once (positions identified by path); Break at callback k delivers exactly the first k+1 callbacks of the complete walk; the mutating walk with an identity visitor delivers the same sequence and returns an equal tree. Which types and fields carry which hook is not modelled by hand: the AST schema (265 types, every visit(with=...) attribute, the manual impls) is re-extracted from the Rust sources with syn on every run and the kernel re-decides that Expr/Statement/Query/TableFactor carry their hooks and that the 16 relation positions of the specification table are hooked. The model of the derive is tied to the code by running the real Visit and VisitMut walks on every distinct parsed corpus statement and on AST-first generated statements (random documents of the schema turned into real values by the crate's Deserialize, every Statement variant in turn), each reflected into the model through a serde Serializer and cross-checked against the schema, with Break at none/first/second/middle/last (thorough: every) callback. Because the theorems pin the callback sequence uniquely, a disagreement is a violation at that input. Two (three) DML target positions of the property are not hooked by the code: known findings reported by the relation-coverage oracle.",
+    level_text="Proved in Lean for every tree and every visitor (a visitor = the set of callback indices at which it returns Break): the traversal that derive(Visit, VisitMut) generates (type-level pre hook, fields in declaration order each wrapped in its field-level pre/post hook - for a field written Vec<..> each element in order wrapped in it instead (hooked_vec_trace) -, type-level post hook; Option/Vec/Box transparent; ? on ControlFlow) delivers a well-nested callback sequence in which every post closes the pre of the same node; the pre callbacks are exactly the hooked nodes and hooked fields of the tree in pre-order, each exactly once (positions identified by path); Break at callback k delivers exactly the first k+1 callbacks of the complete walk; the mutating walk with an identity visitor delivers the same sequence and returns an equal tree. Which types and fields carry which hook is not modelled by hand: the AST schema (265 types, every visit(with=...) attribute, the manual impls) is re-extracted from the Rust sources with syn on every run and the kernel re-decides that Expr/Statement/Query/TableFactor carry their hooks and that the relation positions of the specification table, the Vec<ObjectName> targets of a multi-table DELETE included, are fields of type ObjectName / Vec<ObjectName> carrying the relation hook, the Vec ones per element exactly where the derive does so. The model of the derive is tied to the code by running the real Visit and VisitMut walks on every distinct parsed corpus statement and on AST-first generated statements (random documents of the schema turned into real values by the crate's Deserialize, every Statement variant in turn), each reflected into the model through a serde Serializer and cross-checked against the schema, with Break at none/first/second/middle/last (thorough: every) callback. Because the theorems pin the callback sequence uniquely, a disagreement is a violation at that input. The relation-coverage oracle finds every FROM/JOIN/DML target position by pattern matching on the real AST and requires a pre_visit_relation callback for each (elements of a Vec position in order).",
     level_note="Trusted: Lean kernel; translator/schema.rs (attributes read syntactically, cfg evaluated for features std+serde+visitor); the hand-written model of derive/src/lib.rs and of the container impls (validated on corpus trees only, largest walk about 200 callbacks); reflection through derive(Serialize) shows fields in declaration order. The general mutating walk (callbacks that restructure the tree) is modelled with fuel but only its identity instance is tied to the code. The relation-position table is a hand-written spec (Props/C16.lean and, independently, pattern matching in harness c16.rs).",
     technique="Lean 4 generic traversal theorems (all trees, all break points) + kernel-decided side conditions on the AST schema regenerated from source (syn) + real Visit/VisitMut callback trace differential + relation-coverage oracle",
     trusted_base=["translator/schema.rs attribute and cfg extraction", "Model/Visit.lean mirrors derive/src/lib.rs and src/ast/visitor.rs:46-118 (hand-written)",
